@@ -133,7 +133,7 @@ package inhibit
 
 // C03: an ingested alert is cached in, and indexed for, every rule whose source side it matches - and only those.
 //@ func (*Inhibitor).processAlert
-//@   props C03
+//@   props C03 C13
 //@   requires tracer != nil
 //@   assumes forall k int :: 0 <= k && k < len(ih.rules) ==> ih.rules[k] != nil && ih.rules[k].scache != nil
 //@   requires ih != nil && a != nil
